@@ -359,7 +359,7 @@ fn table() -> Vec<(&'static str, Ret, String)> {
         ("witness-while", Ret::U32, f("u32", "let i = 0; while mk(i) != mk(n) { i = i + 1; } i")),
         ("witness-match-guard", Ret::U32, f("u32", "let x = maybe(c, m); match x { Some(y) if mk(id(y)) == mk(n) => 1, Some(y) => 2, None => 3 }")),
         ("witness-aggregate", Ret::U32, f("u32", "let r = R { a: mk(1), b: if c { return 7 } else { \"x\" }, k: 2 }; 3")),
-        ("witness-enum-ctor", Ret::U32, f("u32", "let e = E.B(\"x\", if c { return 7 } else { mk(2) }); 3")),
+        ("clean-enum-ctor-diverging", Ret::U32, f("u32", "let e = E.B(\"x\", if c { return 7 } else { mk(2) }); 3")),
         ("clean-while", Ret::U32, f("u32", "let i = 0; while i < n { let x = mk(i); i = i + 1; } i")),
         ("clean-for", Ret::U32, f("u32", "let k = 0; for e in many(n) { k = k + id(e); } k")),
         ("clean-and-or", Ret::U32, f("u32", "if (id(mk(n)) == 1 && id(mk(m)) == 2) || same(t, mk(1000)) { 1 } else { 2 }")),
@@ -630,6 +630,46 @@ fn main() {
             }
             Err(e) => println!("ERROR\n{e}"),
         },
+        Some("emit-lean") => {
+            // write the current tree's dumps of the witness scripts as Lean definitions
+            let out = &args[2];
+            let module_ns = args.get(3).map(|s| s.as_str()).unwrap_or("RotoV.C03.Now");
+            let mut drv = Driver::spawn().expect("lean driver");
+            let mut text = String::from("/- generated by `c03 emit-lean` from the compiler's MIR dumps; do not edit -/\nimport RotoV.Model.Mir\n\n");
+            text.push_str(&format!("namespace {module_ns}\nopen RotoV.Mir\n\n"));
+            for (name, _ret, src) in table() {
+                if !name.starts_with("witness-") {
+                    continue;
+                }
+                let items = match dump(&src) {
+                    Ok(i) => i,
+                    Err(e) => {
+                        println!("EXTRACT-FAIL C03Dumps {name}: {}", e.lines().next().unwrap_or(""));
+                        std::process::exit(2);
+                    }
+                };
+                let it = items.iter().find(|i| i.name.ends_with("main")).expect("main item");
+                let ident: String = std::iter::once("w".to_string())
+                    .chain(name["witness-".len()..].split('-').map(|w| format!("{}{}", w[..1].to_uppercase(), &w[1..])))
+                    .collect();
+                let lean = drv.ask(&format!("c03 lean {}", nums_line(&it.nums)));
+                let cert = drv.ask(&format!("c03 cert {}", nums_line(&it.nums)));
+                text.push_str(&format!("/-- MIR of `main` in:\n{}\n-/\ndef {ident} : Item :=\n  {lean}\n\n", src.replace("-/", "- /")));
+                text.push_str(&format!("/-- certificate proposed by the untrusted search (empty if it found none) -/\ndef {ident}Cert : Cert :=\n  {cert}\n\n"));
+            }
+            text.push_str(&format!("end {module_ns}\n"));
+            std::fs::write(out, text).expect("write");
+            println!("EXTRACT-OK C03Dumps");
+        }
+        Some("table-nums") => {
+            for (name, _ret, src) in table() {
+                if let Ok(items) = dump(&src) {
+                    if let Some(it) = items.iter().find(|i| i.name.ends_with("main")) {
+                        println!("{name} {}", nums_line(&it.nums));
+                    }
+                }
+            }
+        }
         Some("gen") => {
             let (src, ret, _) = gen_case(args[2].parse().unwrap(), args[3].parse().unwrap(), args[4].parse().unwrap());
             println!("// ret {}\n{src}", ret.name());
